@@ -275,9 +275,12 @@ fn gen_cfg(rng: &mut Rng, n: usize) -> Cfg {
         max_buckets: if rng.chance(1, 16) { usize::MAX } else { 1 + rng.usize(3) },
         max_verifies: if rng.chance(1, 16) { usize::MAX } else { 1 + rng.usize(5) },
         // u64::MAX stands for Duration::MAX (a window that never elapses), 1 for the shortest legal window
+        // whole and fractional seconds, sub-second windows
         window_ns: match rng.below(24) {
             0 => u64::MAX,
             1 => 1,
+            2 | 3 => 1 + rng.below(SEC),
+            4..=11 => (1 + rng.below(60)) * SEC + 1 + rng.below(SEC - 1),
             _ => (10 + rng.below(51)) * SEC,
         },
     }
@@ -304,7 +307,7 @@ fn gen_history(rng: &mut Rng, lib: &Library, cfg: &Cfg, len: usize, push_heavy: 
         let op = if r < push_w {
             Op::Push(if rng.chance(2, 3) { *rng.pick(&fav) } else { rng.usize(lib.proofs.len()) })
         } else if r < push_w + 14 {
-            Op::Advance(*rng.pick(&[0, 1, SEC, w - 1, w, w + 1, 2 * w, w / 2, 3 * SEC]))
+            Op::Advance(*rng.pick(&[0, 1, SEC, w - 1, w, w + 1, 2 * w, w / 2, 3 * SEC, w - w % SEC, (w - w % SEC).saturating_sub(1), w % SEC]))
         } else if r < push_w + 22 {
             let k = rng.usize(4);
             let mut s: Vec<usize> = (0..k).map(|_| if !hot_nulls.is_empty() && rng.chance(1, 2) { *rng.pick(&hot_nulls) } else { rng.usize(lib.nullifiers.len() + 2) }).collect();
@@ -502,6 +505,75 @@ fn key_t(k: &BatchKey) -> KeyT {
 }
 
 /// Compare the full observable + dumped state of the pool with the model.
+/// C20's invariants that need no model: they are statements about the real pool's own state (its dump,
+/// its counters, its statistics) and therefore hold or fail whatever the history — also after an
+/// operation whose result already disagreed with the model.
+fn self_consistency(pool: &ProofPool, cfg: &Cfg, out: &mut Vec<(String, String)>) {
+    let dump = pool.verif_dump();
+    let mut v = |sig: &str, d: String| out.push((sig.to_string(), d));
+    let mut want_index: BTreeMap<[u8; 32], KeyT> = BTreeMap::new();
+    let mut shared = false;
+    let mut total = 0usize;
+    for b in &dump.buckets {
+        let k = key_t(&b.key);
+        if b.proofs.is_empty() {
+            v("C20:empty-bucket", "a bucket with no proofs exists".to_string());
+        }
+        total += b.proofs.len();
+        for q in &b.proofs {
+            if key_of(&q.public_inputs) != k {
+                v("C20:proof-in-wrong-bucket", "a pooled proof sits in a bucket whose key differs from its own".to_string());
+            }
+            let mut seen_here: HashSet<[u8; 32]> = HashSet::new();
+            for nl in &q.nullifiers {
+                if !seen_here.insert(**nl) {
+                    continue; // repeat inside one proof
+                }
+                if want_index.insert(**nl, k).is_some() {
+                    shared = true;
+                }
+            }
+        }
+    }
+    if shared {
+        v("C20:shared-nullifier", "two pooled proofs share a nullifier".to_string());
+    }
+    let got_index: BTreeMap<[u8; 32], KeyT> = dump.nullifier_index.iter().map(|(nl, k)| (**nl, key_t(k))).collect();
+    if got_index != want_index && !shared {
+        let extra = got_index.keys().filter(|k| !want_index.contains_key(*k)).count();
+        let missing = want_index.keys().filter(|k| !got_index.contains_key(*k)).count();
+        v("C20:index", format!("nullifier index differs from the pooled nullifiers: {} phantom entries, {} missing entries, {} total", extra, missing, got_index.len()));
+    }
+    if pool.len() != total || pool.num_buckets() != dump.buckets.len() || pool.is_empty() != (total == 0) {
+        v("C20:counts", format!("len/num_buckets/is_empty = {}/{}/{}, the pool holds {} proofs in {} buckets", pool.len(), pool.num_buckets(), pool.is_empty(), total, dump.buckets.len()));
+    }
+    if total > cfg.max_proofs || dump.buckets.len() > cfg.max_buckets {
+        v("C20:limits", format!("pool exceeds its limits: {} proofs (max {}), {} buckets (max {})", total, cfg.max_proofs, dump.buckets.len(), cfg.max_buckets));
+    }
+    // statistics against the pool's own contents
+    let now = Instant::now();
+    let mut got: Vec<(KeyT, usize, usize, Duration, u64, Option<Duration>)> = pool.bucket_stats().iter().map(|s| (key_t(&s.key), s.num_proofs, s.batch_size, s.oldest_age, s.total_volume, s.last_snapshot_age)).collect();
+    got.sort();
+    let mut want: Vec<(KeyT, usize, usize, Duration, u64, Option<Duration>)> = dump
+        .buckets
+        .iter()
+        .map(|b| {
+            (
+                key_t(&b.key),
+                b.proofs.len(),
+                cfg.batch,
+                b.proofs.iter().map(|q| now.saturating_duration_since(q.admitted_at)).max().unwrap_or_default(),
+                b.proofs.iter().fold(0u64, |a, q| a.saturating_add(q.volume)),
+                b.last_snapshot_at.map(|t| now.saturating_duration_since(t)),
+            )
+        })
+        .collect();
+    want.sort();
+    if got != want {
+        v("C20:stats", format!("bucket_stats {:?} differ from the pool's own contents {:?}", got.iter().map(|g| (g.1, g.3, g.4, g.5)).collect::<Vec<_>>(), want.iter().map(|g| (g.1, g.3, g.4, g.5)).collect::<Vec<_>>()));
+    }
+}
+
 fn compare_state(pool: &ProofPool, m: &Model, lib: &Library, base: Instant, out: &mut Vec<(String, String)>) {
     let dump = pool.verif_dump();
     let mut v = |sig: &str, d: String| out.push((sig.to_string(), d));
@@ -594,6 +666,11 @@ fn compare_state(pool: &ProofPool, m: &Model, lib: &Library, base: Instant, out:
             )
         })
         .collect();
+    for st in stats.iter() {
+        if st.is_full() != (st.num_proofs >= m.cfg.batch) {
+            v("C20:stats", format!("BucketStats::is_full() = {} for {} pooled proofs at batch size {}", st.is_full(), st.num_proofs, m.cfg.batch));
+        }
+    }
     if got != want {
         v("C20:stats", format!("bucket_stats {:?} differ from the pooled contents {:?}", got.iter().map(|g| (g.1, g.3, g.4, g.5)).collect::<Vec<_>>(), want.iter().map(|g| (g.1, g.3, g.4, g.5)).collect::<Vec<_>>()));
     }
@@ -840,6 +917,9 @@ pub fn execute(lib: &Library, cfg: &Cfg, ops: &[Op]) -> Outcome {
         // report that root cause only, not its downstream state differences
         if viol.is_empty() {
             compare_state(&pool, &m, lib, base, &mut viol);
+        } else {
+            // ... except the invariants of the pool's own state, which need no model (C20)
+            self_consistency(&pool, &m.cfg, &mut viol);
         }
         if !viol.is_empty() {
             for v in viol.iter_mut() {
@@ -863,7 +943,7 @@ pub fn run(ctx: &Ctx, which: Which) {
     let n_hist = ctx.tier.pick(6_400usize, 200_000);
     let max_len = ctx.tier.pick(40usize, 80);
     ctx.set_rule(&format!(
-        "{} histories of up to {} operations (Push of a pre-proved library proof, EvictSettled(set), EvictOlderThan(d), Snapshot(key), RemoveBucket(key), Advance(d), Stats) over ProofPool instances with inner_num_leaves in {{1,2}}, batch 1..3, max_proofs batch..batch+3, max_buckets 1..3, max_verifies 1..5 (each occasionally usize::MAX = unlimited), window 10..60 virtual seconds (occasionally 1 ns or Duration::MAX), expiry ages including the unrepresentable \"never expire\" idioms; \
+        "{} histories of up to {} operations (Push of a pre-proved library proof, EvictSettled(set), EvictOlderThan(d), Snapshot(key), RemoveBucket(key), Advance(d), Stats) over ProofPool instances with inner_num_leaves in {{1,2}}, batch 1..3, max_proofs batch..batch+3, max_buckets 1..3, max_verifies 1..5 (each occasionally usize::MAX = unlimited), window 10..60 virtual seconds, fractional-second and sub-second windows (occasionally 1 ns or Duration::MAX), clock steps at the window length, its whole-second floor and its fractional part, expiry ages including the unrepresentable \"never expire\" idioms; \
          library per N: 110 valid proofs over 5 keys (two keys sharing a block hash, one key per asset/fee variation) with nullifiers from a pool of 10 (intra-proof repeats, saturating volumes), 6 dummy-key proofs, ~20 tampered proofs (valid length, fail verification, some claiming pooled nullifiers / other keys), 8 wrong-length proofs; Advance in {{0,1ns,W-1,W,W+1,2W,..}}. \
          Interpreted against the real pool and a model written from the statements under a frozen virtual clock; after every operation: push result/returned key/number of verifier calls vs the documented admission order, rejected push leaves the dumped state unchanged, dumped buckets/index/marks/ages vs model, bucket_stats exact, eviction/removal counts and returned proofs, snapshots pass the public-batch preflight. \
          Failing histories are shrunk by delta debugging. This check reports the {} clauses. Non-trivial: {}.",
